@@ -206,7 +206,7 @@ def check_roundtrip(ctx, case) -> None:
     ctx.cls("regime:" + regime)
     ctx.cls(f"decimals:{d}")
     with fl.settings.context(decimals=d):
-        e = build.mk_engine(spec, decimals=d)
+        e = build.mk_engine(spec, decimals=d, explicit_weights=True)
         t1 = EX.to_string(e)
         e2 = IM.from_string(t1)
         t2 = EX.to_string(e2)
@@ -224,7 +224,7 @@ def check_roundtrip(ctx, case) -> None:
         if df:
             ctx.fail("structure", case, {"path": df[0], "original": repr(df[1])[:200], "imported": repr(df[2])[:200]})
         if regime != "free":
-            o1 = process_rows(build.mk_engine(spec, decimals=d), rows)
+            o1 = process_rows(build.mk_engine(spec, decimals=d, explicit_weights=True), rows)
             o2 = process_rows(e2, rows)
             ctx.check(same_outputs(o1, o2), "outputs-differ", case, {"original": o1, "imported": o2})
         # (d) fixed point for accepted (rewritten) texts
